@@ -236,7 +236,9 @@ theorem C09_masked_nonvacuous :
 
 /-! ### the compaction keeps the order, and is stable under masked-out additions -/
 
-/-- **C09_masked_positions**: `trueIdx mask` lists exactly the positions of the true cells, each once, in
+/-- **C09_masked_positions** (a statement about the SPEC function `trueIdx` alone — no model in it; it is what
+gives the index clause of `C09_masked_order` its meaning, and it pins `trueIdx` down uniquely: a strictly
+increasing list with this membership is unique): `trueIdx mask` lists exactly the positions of the true cells, each once, in
 strictly increasing order; there are `count true` of them. (What "the `j`-th true cell" means below.) -/
 theorem C09_masked_positions (mask : List Bool) :
     (trueIdx mask).Pairwise (· < ·) ∧ (trueIdx mask).length = mask.count true
@@ -386,6 +388,47 @@ theorem C09_masked_order_nonvacuous :
         simp at hr
         rcases hr with rfl | rfl <;> simp)
     simpa [C09_masked (-1 : Int) 4 _ hwf, Except.map, compact] using hs
+
+/-- Non-vacuity, THROUGH the per-row clauses of `C09_masked_order` (audit round E: the witness above only used
+the theorem's first conjunct). On the batch above the theorem itself yields, for row 0: length 3, valid
+prefix `[0, 6, 9]`, a sublist of `[0, 3, 6, 9]`, cell 1 is `x[2] = 6` (the position of the second true cell),
+cell 3 is the pad value. The mask drops an element in the MIDDLE of the row. -/
+theorem C09_masked_order_rows_nonvacuous :
+    ∃ out lens, padMaskedCore (-1 : Int) 4
+        [⟨[0, 3, 6, 9], [true, false, true, true]⟩, ⟨[1, 2, 4, 5], [false, false, false, true]⟩] = .ok (out, lens)
+      ∧ ∃ (ho : 0 < out.length) (hl : 0 < lens.length),
+          lens[0] = 3 ∧ (out[0]).take 3 = [0, 6, 9] ∧ ((out[0]).take 3).Sublist [0, 3, 6, 9]
+          ∧ (out[0])[1]? = some 6 ∧ (out[0])[3]? = some (-1) ∧ (out[0]).length = 4 := by
+  have hwf : ∀ r ∈ [(⟨[0, 3, 6, 9], [true, false, true, true]⟩ : MaskRow Int),
+      ⟨[1, 2, 4, 5], [false, false, false, true]⟩], r.Wf 4 := by
+    intro r hr
+    simp at hr
+    rcases hr with rfl | rfl <;> simp [MaskRow.Wf]
+  obtain ⟨out, lens, h, ho, hl, hrows⟩ := C09_masked_order (-1 : Int) 4 _ hwf
+  refine ⟨out, lens, h, by rw [ho]; decide, by rw [hl]; decide, ?_⟩
+  obtain ⟨c1, _, c3, c4, c5, c6, c7⟩ := hrows 0 (by decide) (by rw [ho]; decide) (by rw [hl]; decide)
+  have e : lens[0]'(by rw [hl]; decide) = 3 := c1.trans (by decide)
+  rw [e] at c4 c5 c6 c7
+  exact ⟨e, c4.trans (by decide), c5, (c6 1 (by decide)).trans (by decide), c7 3 (by decide) (by decide), c3⟩
+
+/-- Non-vacuity of `C09_masked_concat` (audit round E: it had no witness): two rows, each the concatenation of
+a 2-long and a 3-long part, masks that drop elements in BOTH parts; both well-formedness hypotheses hold
+together, the theorem applies, and its right-hand side is the expected compaction with lengths `[3, 1]`. -/
+theorem C09_masked_concat_nonvacuous :
+    padMaskedCore (-1 : Int) 5
+        [⟨[0, 3, 6, 9, 12], [true, false, false, true, true]⟩, ⟨[1, 2, 4, 5, 7], [false, false, true, false, false]⟩]
+      = .ok ([[0, 9, 12, -1, -1], [4, -1, -1, -1, -1]], [3, 1]) := by
+  have h1 : ∀ p ∈ [((⟨[0, 3], [true, false]⟩, ⟨[6, 9, 12], [false, true, true]⟩) : MaskRow Int × MaskRow Int),
+      (⟨[1, 2], [false, false]⟩, ⟨[4, 5, 7], [true, false, false]⟩)], p.1.Wf 2 := by
+    intro p hp
+    simp at hp
+    rcases hp with rfl | rfl <;> simp [MaskRow.Wf]
+  have h2 : ∀ p ∈ [((⟨[0, 3], [true, false]⟩, ⟨[6, 9, 12], [false, true, true]⟩) : MaskRow Int × MaskRow Int),
+      (⟨[1, 2], [false, false]⟩, ⟨[4, 5, 7], [true, false, false]⟩)], p.2.Wf 3 := by
+    intro p hp
+    simp at hp
+    rcases hp with rfl | rfl <;> simp [MaskRow.Wf]
+  exact (C09_masked_concat (-1 : Int) 2 3 _ h1 h2).trans (by decide)
 
 /-! ### pad_masked_sequence on whole tensors: both layouts, broadcastable masks -/
 
@@ -729,22 +772,13 @@ theorem C09_shift_train (mode : Mode) (value : α) (T : Nat) (p0 p1 : Rat) (rows
           padSeq mode value (shiftAmount p0 s.len s.u0) (shiftAmount p1 s.len s.u1) (s.x.take s.len)
             ++ List.replicate (maxOf ((rows.map (ShiftRow.toPad p0 p1)).map PadRow.newLen)
                 - (s.toPad p0 p1).newLen) value) := by
-  have := C09_pad mode value T (rows.map (ShiftRow.toPad p0 p1)) (by simpa using hne) (by
-    intro p hp
-    obtain ⟨s, hs, rfl⟩ := List.mem_map.1 hp
-    exact h s hs)
-  refine ⟨_, ?_, rfl⟩
-  simp only [randomShift, if_true, this, List.map_map]
-  rfl
+  exact ⟨_, randomShiftWith_train shiftAmount mode value T p0 p1 rows hne h, rfl⟩
 
 /-- the original sequence sits unchanged between the two paddings -/
 theorem C09_shift_embeds (mode : Mode) (value : α) (l r : Nat) (xs : List α) :
     ((padSeq mode value l r xs).drop l).take xs.length = xs
-    ∧ (padSeq mode value l r xs).length = l + xs.length + r := by
-  rw [padSeq_eq]
-  constructor
-  · rw [List.append_assoc, List.drop_left' (leftPart_length mode value l xs), List.take_left' rfl]
-  · simp only [List.length_append, leftPart_length, rightPart_length]
+    ∧ (padSeq mode value l r xs).length = l + xs.length + r :=
+  padSeq_embeds mode value l r xs
 
 /-- **C09_shift_train_embeds**: the random-shift clause in the property's wording, on the MODEL's output
 (not on the spec alone): in training mode, on a legal request, row `n` of the output holds, up to the
@@ -761,26 +795,8 @@ theorem C09_shift_train_embeds (mode : Mode) (value : α) (T : Nat) (p0 p1 : Rat
             = padSeq mode value (shiftAmount p0 (rows[n]).len (rows[n]).u0)
                 (shiftAmount p1 (rows[n]).len (rows[n]).u1) ((rows[n]).x.take (rows[n]).len)
         ∧ ((out[n]).drop (shiftAmount p0 (rows[n]).len (rows[n]).u0)).take (rows[n]).len
-            = (rows[n]).x.take (rows[n]).len := by
-  obtain ⟨out, hrun, hout⟩ := C09_shift_train mode value T p0 p1 rows hne h
-  subst hout
-  refine ⟨_, _, hrun, by simp, by simp, ?_⟩
-  intro n hn ho hl
-  obtain ⟨hx, hlen, _⟩ := h rows[n] (List.getElem_mem hn)
-  have hxl : ((rows[n]).x.take (rows[n]).len).length = (rows[n]).len := by
-    simp only [ShiftRow.toPad] at hx hlen
-    simp [hx, hlen]
-  obtain ⟨hemb, hplen⟩ := C09_shift_embeds mode value (shiftAmount p0 (rows[n]).len (rows[n]).u0)
-    (shiftAmount p1 (rows[n]).len (rows[n]).u1) ((rows[n]).x.take (rows[n]).len)
-  rw [hxl] at hemb hplen
-  simp only [List.getElem_map]
-  refine ⟨trivial, ?_, ?_⟩
-  · apply List.take_left'
-    rw [hplen]
-    omega
-  · rw [List.drop_append_of_le_length (by rw [hplen]; omega),
-      List.take_append_of_le_length (by rw [List.length_drop, hplen]; omega)]
-    exact hemb
+            = (rows[n]).x.take (rows[n]).len :=
+  randomShiftWith_rows shiftAmount mode value T p0 p1 rows hne h
 
 -- prop = (1/2, 1), len = 4, draws (3/4, 1/2): floor(1.5) = 1 left, floor(2) = 2 right
 example : randomShift false .replicate (0 : Int) 4 (1/2) 1 true [⟨[1, 2, 3, 4], 4, 3/4, 1/2⟩]
@@ -790,7 +806,7 @@ example : ∀ s ∈ [(⟨[1, 2, 3, 4], 4, 3/4, 1/2⟩ : ShiftRow Int)], (s.toPad
   intro s hs
   simp at hs
   subst hs
-  simp [PadRow.Legal, ShiftRow.toPad, legalPad]
+  simp [PadRow.Legal, ShiftRow.toPad, ShiftRow.toPadWith, legalPad]
 
 /-- Non-vacuity of `C09_shift_train` / `C09_shift_train_embeds`: a two-row replicate batch with different
 lengths, proportions and draws that add elements on both sides is legal and both theorems apply. -/
@@ -807,7 +823,7 @@ theorem C09_shift_train_nonvacuous :
       (s.toPad (1/2) 1).Legal .replicate 4 := by
     intro s hs
     simp at hs
-    rcases hs with rfl | rfl <;> simp [PadRow.Legal, ShiftRow.toPad, legalPad]
+    rcases hs with rfl | rfl <;> simp [PadRow.Legal, ShiftRow.toPad, ShiftRow.toPadWith, legalPad]
   refine ⟨hleg, by decide +kernel, ?_⟩
   obtain ⟨out, lens, h, h1, h2, _⟩ := C09_shift_train_embeds .replicate (0 : Int) 4 (1/2) 1 _ (by simp) hleg
   exact ⟨out, lens, h, h1, h2⟩
@@ -887,6 +903,11 @@ representable). Proof: `Lemmas/PadChunkFloat.lean` (binade of a rational from `N
 theorem C09_rounding_float (p : Nat) (hp : 1 ≤ p) : Rounding (2 ^ p) (roundBits p) :=
   rounding_roundBits p hp
 
+-- `roundBits` is not the identity, and the bound `B = 2^p` of `nat_exact` is tight: 1/3 is not a double,
+-- 2^24 is a float32 but 2^24 + 1 is not (it rounds to the even neighbour 2^24)
+example : roundBits 53 (1 / 3) ≠ 1 / 3 ∧ roundBits 24 16777216 = 16777216 ∧ roundBits 24 16777217 = 16777216 := by
+  decide +kernel
+
 /-- **C09_shift_amount_float64**: the bound for the double-precision model of the REPAIRED code with no
 hypothesis about rounding left. `prop ≥ 0` the configured proportion, `prop * len ≤ 2^53`, the draw `u` a
 float32 in `[0, 1)` (the code keeps the draws in float32: `roundBits 24 u = u`). Then the number of added
@@ -898,8 +919,7 @@ theorem C09_shift_amount_float64 (prop : Rat) (len : Nat) (u : Rat) (hp : 0 ≤ 
     (hu : roundBits 24 u = u) :
     ((shiftAmountF64 prop len u : Nat) : Rat) ≤ prop * (len : Rat)
       ∧ (0 < prop * (len : Rat) → ((shiftAmountF64 prop len u : Nat) : Rat) < prop * (len : Rat)) :=
-  C09_shift_amount_rounded (2 ^ 53) (roundBits 53) (C09_rounding_float 53 (by norm_num)) prop len u hp hB
-    hu0 hu1 (roundBits_repr_mono 24 53 (by norm_num) (by norm_num) u hu)
+  shiftAmountF64_bound prop len u hp hB hu0 hu1 hu
 
 /-- Non-vacuity of `C09_shift_amount_float64` on the witness of the float32 defect: `prop` the double just
 below `1/7`, `len = 21`, the largest float32 draw below 1 — every hypothesis holds, double arithmetic adds
@@ -913,6 +933,82 @@ theorem C09_shift_amount_float64_nonvacuous :
    (C09_shift_amount_float64 (2573485501354569 / 18014398509481984) 21 (16777215 / 16777216)
       (by decide +kernel) (by decide +kernel) (by decide +kernel) (by decide +kernel) (by decide +kernel)).2
       (by decide +kernel)⟩
+
+/-- **C09_shift_float64** (audit round E) — the random-shift clause END TO END for the arithmetic the repaired
+code really uses. `randomShiftF64` is `random_shift` with the amounts computed in double precision
+(`trunc (fl64 (fl64 (prop * len) * u))`, `u` the float32 draw); it differs from the exact-arithmetic model
+`randomShift` whenever a product lands within an ulp of an integer (`prop = 2/3` as a double, `len = 3`,
+`u = 1/2`: double arithmetic adds 1 element, exact arithmetic 0 — the example below), and it is what the
+library returns there. For a non-empty batch of rows that are `Ok64` (rectangular, `len ≤ T`,
+`prop * len ≤ 2^53`, draws float32 numbers in `[0, 1)`; replicate: `len ≥ 1`; reflect: `len ≥ 1` and
+`prop ≤ 1`, as `RandomShift.__init__` demands — NOTHING is assumed about the amounts or about the legality
+of the `pad_variable` request, both are derived) and `prop ≥ 0`:
+the call succeeds, and for every row there are whole numbers `l, r` with `l ≤ p0 * len`, `r ≤ p1 * len`
+(strictly below — the documented EXCLUSIVE bound — when the product is positive), the reported length is
+`len + l + r`, the valid part of the output row is the per-sequence padding by `(l, r)`, and the original
+sequence sits unchanged at offset `l`. -/
+theorem C09_shift_float64 (mode : Mode) (value : α) (T : Nat) (p0 p1 : Rat) (hp0 : 0 ≤ p0) (hp1 : 0 ≤ p1)
+    (rows : List (ShiftRow α)) (hne : rows ≠ []) (h : ∀ s ∈ rows, s.Ok64 mode T p0 p1) :
+    ∃ out lens, randomShiftF64 false mode value T p0 p1 true rows = .ok (out, lens) ∧
+      out.length = rows.length ∧ lens.length = rows.length ∧
+      ∀ (n : Nat) (hn : n < rows.length) (ho : n < out.length) (hl : n < lens.length),
+        ∃ l r : Nat,
+          ((l : Rat) ≤ p0 * ((rows[n]).len : Rat)
+            ∧ (0 < p0 * ((rows[n]).len : Rat) → (l : Rat) < p0 * ((rows[n]).len : Rat)))
+          ∧ ((r : Rat) ≤ p1 * ((rows[n]).len : Rat)
+            ∧ (0 < p1 * ((rows[n]).len : Rat) → (r : Rat) < p1 * ((rows[n]).len : Rat)))
+          ∧ lens[n] = (rows[n]).len + (l + r)
+          ∧ (out[n]).take lens[n] = padSeq mode value l r ((rows[n]).x.take (rows[n]).len)
+          ∧ ((out[n]).drop l).take (rows[n]).len = (rows[n]).x.take (rows[n]).len := by
+  obtain ⟨out, lens, hrun, h1, h2, hrows⟩ :=
+    randomShiftWith_rows shiftAmountF64 mode value T p0 p1 rows hne (fun s hs => (h s hs).legal hp0 hp1)
+  refine ⟨out, lens, hrun, h1, h2, ?_⟩
+  intro n hn ho hl
+  obtain ⟨_, _, hB0, hB1, ⟨a0, a1, a2⟩, ⟨b0, b1, b2⟩, _, _⟩ := h rows[n] (List.getElem_mem hn)
+  obtain ⟨e1, e2, e3⟩ := hrows n hn ho hl
+  exact ⟨_, _, shiftAmountF64_bound p0 _ _ hp0 hB0 a0 a1 a2, shiftAmountF64_bound p1 _ _ hp1 hB1 b0 b1 b2,
+    e1, e2, e3⟩
+
+-- the two arithmetics DIFFER: prop = the double nearest 2/3 (just below it), len = 3, u = 1/2.
+-- fl64 (prop * 3) = 2 exactly, times 1/2 = 1: one element; exactly, prop * 3 / 2 < 1: none.
+example : shiftAmountF64 (6004799503160661 / 9007199254740992) 3 (1 / 2) = 1
+    ∧ shiftAmount (6004799503160661 / 9007199254740992) 3 (1 / 2) = 0
+    ∧ (6004799503160661 / 9007199254740992 : Rat) * 3 < 2 := by decide +kernel
+
+/-- Non-vacuity of `C09_shift_float64` ON A ROUNDING TIE, reflect mode, pads on both sides: `p0` the double
+nearest `2/3`, `p1 = 1/2`, rows of lengths 3 and 2 in a `T = 3` batch. Every row is `Ok64` (all hypotheses
+together), the theorem applies, and the output it speaks about is `[[2, 1, 2, 3, 2], [5, 4, 5, 0, 0]]`
+with lengths `[5, 3]`: row 0 gets ONE element on the left (exact arithmetic would give none) and one on
+the right, row 1 one on the left. -/
+theorem C09_shift_float64_nonvacuous :
+    (∀ s ∈ [(⟨[1, 2, 3], 3, 1/2, 3/4⟩ : ShiftRow Int), ⟨[4, 5, 6], 2, 15/16, 1/2⟩],
+      s.Ok64 .reflect 3 (6004799503160661 / 9007199254740992) (1/2))
+    ∧ randomShiftF64 false .reflect (0 : Int) 3 (6004799503160661 / 9007199254740992) (1/2) true
+        [⟨[1, 2, 3], 3, 1/2, 3/4⟩, ⟨[4, 5, 6], 2, 15/16, 1/2⟩]
+        = .ok ([[2, 1, 2, 3, 2], [5, 4, 5, 0, 0]], [5, 3])
+    ∧ randomShift false .reflect (0 : Int) 3 (6004799503160661 / 9007199254740992) (1/2) true
+        [⟨[1, 2, 3], 3, 1/2, 3/4⟩, ⟨[4, 5, 6], 2, 15/16, 1/2⟩]
+        = .ok ([[1, 2, 3, 2], [5, 4, 5, 0]], [4, 3])
+    ∧ ∃ out lens, randomShiftF64 false .reflect (0 : Int) 3 (6004799503160661 / 9007199254740992) (1/2) true
+        [⟨[1, 2, 3], 3, 1/2, 3/4⟩, ⟨[4, 5, 6], 2, 15/16, 1/2⟩] = .ok (out, lens)
+        ∧ out.length = 2 ∧ lens.length = 2 := by
+  have hok : ∀ s ∈ [(⟨[1, 2, 3], 3, 1/2, 3/4⟩ : ShiftRow Int), ⟨[4, 5, 6], 2, 15/16, 1/2⟩],
+      s.Ok64 .reflect 3 (6004799503160661 / 9007199254740992) (1/2) := by
+    intro s hs
+    simp only [List.mem_cons, List.not_mem_nil, or_false] at hs
+    rcases hs with rfl | rfl
+    · exact ⟨rfl, by decide, by decide +kernel, by decide +kernel,
+        ⟨by decide +kernel, by decide +kernel, by decide +kernel⟩,
+        ⟨by decide +kernel, by decide +kernel, by decide +kernel⟩,
+        (fun h => by cases h), fun _ => ⟨by decide, by decide +kernel, by decide +kernel⟩⟩
+    · exact ⟨rfl, by decide, by decide +kernel, by decide +kernel,
+        ⟨by decide +kernel, by decide +kernel, by decide +kernel⟩,
+        ⟨by decide +kernel, by decide +kernel, by decide +kernel⟩,
+        (fun h => by cases h), fun _ => ⟨by decide, by decide +kernel, by decide +kernel⟩⟩
+  refine ⟨hok, by decide +kernel, by decide +kernel, ?_⟩
+  obtain ⟨out, lens, h, h1, h2, _⟩ := C09_shift_float64 .reflect (0 : Int) 3
+    (6004799503160661 / 9007199254740992) (1/2) (by decide +kernel) (by decide +kernel) _ (by simp) hok
+  exact ⟨out, lens, h, h1, h2⟩
 
 /-! ## shapes: every entry point accepts exactly the documented shapes -/
 
@@ -1067,7 +1163,11 @@ theorem C09_pad_tensor (mode : Mode) (value : α) (T : Nat) (x : List (List α))
   rw [hget n hn' hn (by omega) (by omega) (by omega)] at this
   exact this
 
-/-- **C09_pad_tensor_refuses**: any other combination of shapes is a ValueError. -/
+/-- **C09_pad_tensor_refuses**: any other combination of shapes is a ValueError.
+DEFINITIONAL (audit round E): the hypothesis is the negation of the two guards of `padVariableT` and the proof
+unfolds them (`unfold; split; rfl`). Kept as documentation of the model, NOT counted as an obligation; that
+the library refuses exactly the undocumented shapes with ValueError is `C09_shapes_pad` (shape model) plus
+the shape stream of the harness. -/
 theorem C09_pad_tensor_refuses (pinned : Bool) (mode : Mode) (value : α) (T : Nat) (x : List (List α))
     (lens pad0 pad1 : List Nat) (padOuter : Nat)
     (h : ¬ (lens.length = x.length ∧ padOuter = 2 ∧ pad0.length = x.length ∧ pad1.length = x.length)) :
@@ -1092,6 +1192,8 @@ theorem C09_pad_tensor_nonvacuous :
 /-- **C09_chunk_tensor**: `chunk_by_slices` on whole tensors with `lens` absent (every sequence has length
 `T`) or of shape `(N,)` is the row-level function of `C09_chunk` / `C09_chunk_reflect` on the zipped
 rows; a `lens` of any other shape is a RuntimeError.
+DEFINITIONAL (audit round E): both conjuncts are `chunkBySlicesT` unfolded past its guards (`unfold; simp`);
+NOT counted as an obligation any more, kept because `C09_chunk_tensor_rows` is proved through it.
 BRIDGE (audit): the second conjunct is the definition of the tensor-level model unfolded past its guards;
 the statement about the per-sequence spec is `C09_chunk_tensor_rows` below. It holds for `slices` of any
 length only because the MODEL zips (truncates); the code does not check the shape of `slices` either, but
